@@ -6,6 +6,7 @@
 -/
 import Mathlib.Algebra.CharZero.Defs
 import ALV.Lemmas.C20Mavg
+import ALV.Lemmas.C20Amdf
 import ALV.Lemmas.C20Clip
 import ALV.Lemmas.C20Zcross
 import ALV.Lemmas.C20Unwrap
@@ -44,6 +45,12 @@ theorem maverage_strategies_agree (size : Nat) (hs : 0 < size) (zero : K) (xs : 
   rw [maverage_deque_eq_spec size hs, maverage_recursive_eq_spec size hs, maverage_fir_eq_spec size hs]
   exact ⟨rfl, rfl⟩
 
+/-- **C20.1e** the specification in index form: output `n` is `(Σ_{k<size} x[n−k]) / size` with
+`x[i] = zero` for `i < 0`. -/
+theorem maverage_eq_indexed_mean (size : Nat) (hs : 0 < size) (zero : K) (xs : List K) :
+    maverageDeque size zero xs = mavgClosed size zero xs := by
+  rw [maverage_deque_eq_spec size hs, mavgClosed_eq_mavgSpec]
+
 /-- one output per input -/
 theorem maverage_length (size : Nat) (hs : 0 < size) (zero : K) (xs : List K) :
     (maverageDeque size zero xs).length = xs.length := by
@@ -72,6 +79,56 @@ theorem accumulate_z_eq_spec (xs : List K) : accumulateZ 0 xs = accSpec xs := by
     simp only [accumulateZ, frun, h, accLoop, accumulateFunc, zero_add]
 
 end accumulate
+
+/-! ### amdf and envelope -/
+section amdf
+variable {K : Type} [Field K] [LinearOrder K] [IsStrictOrderedRing K]
+
+/-- the lag filter `1 − z^-lag` of `amdf` computes `x[n] − x[n−lag]` (earlier samples = `zero`),
+for every lag including 0. -/
+omit [LinearOrder K] [IsStrictOrderedRing K] in
+theorem amdf_lag_filter_eq_spec (lag : Nat) (zero : K) (xs : List K) :
+    frun (lagNum lag) [] zero xs = lagDiffSpec lag zero xs :=
+  lagFilter_eq_spec lag zero xs
+
+/-- **C20.3** `amdf(lag, size)` is the moving average of `|x[n] − x[n−lag]|`: every lag, every
+size ≥ 1, every input (memory value `zero` on both stages, as the code passes it). -/
+theorem amdf_eq_spec (lag size : Nat) (hs : 0 < size) (zero : K) (xs : List K) :
+    amdf lag size zero xs = amdfSpec lag size zero xs := by
+  unfold amdf amdfSpec
+  rw [maverage_deque_eq_spec size hs, lagFilter_eq_spec]
+
+/-- `absG` (the model of Python's `abs`) is the absolute value. -/
+theorem absG_is_abs (x : K) : absG x = |x| := absG_eq_abs x
+
+/-- **C20.4a** `envelope.abs` / `envelope.squared` are, by definition, the low-pass (coefficient
+lists `b`, `a`, zero memory) of `|x|` resp. `x²`. -/
+theorem envelope_by_definition (b a xs : List K) :
+    envelopeAbs b a xs = frun b a 0 (xs.map fun x => |x|) ∧
+    envelopeSquared b a xs = frun b a 0 (xs.map fun x => x ^ 2) := by
+  constructor
+  · unfold envelopeAbs
+    congr 1
+    apply List.map_congr_left; intro x _; exact absG_eq_abs x
+  · unfold envelopeSquared
+    congr 1
+    apply List.map_congr_left; intro x _; ring
+
+/-- **C20.4b** with the default one-pole low-pass `g / (1 − R z^-1)`, `g, R ≥ 0`, both envelopes
+are non-negative (so the square root taken by `envelope.rms` is real). -/
+theorem envelope_nonneg (g r : K) (hg : 0 ≤ g) (hr : 0 ≤ r) (xs : List K) :
+    (∀ y ∈ envelopeAbs [g] [-r] xs, 0 ≤ y) ∧ (∀ y ∈ envelopeSquared [g] [-r] xs, 0 ≤ y) := by
+  constructor
+  · apply onePole_nonneg g r hg hr _ _ _ (by simp [finit]) ⟨0, by simp [finit], le_refl _⟩
+    intro x hx
+    obtain ⟨y, _, rfl⟩ := List.mem_map.mp hx
+    rw [absG_eq_abs]; exact abs_nonneg y
+  · apply onePole_nonneg g r hg hr _ _ _ (by simp [finit]) ⟨0, by simp [finit], le_refl _⟩
+    intro x hx
+    obtain ⟨y, _, rfl⟩ := List.mem_map.mp hx
+    exact mul_self_nonneg y
+
+end amdf
 
 /-! ### clip -/
 section clip
@@ -240,6 +297,7 @@ end unwrap
 
 /-! ### non-vacuity -/
 example : (0 < 4) ∧ maverageDeque 2 (0 : Rat) [1, 3, 5] = [1/2, 2, 4] := by decide +kernel
+example : amdf 2 2 (0 : Rat) [1, 3, -2, 5] = [1/2, 2, 3, 5/2] := by decide +kernel
 example : clip (some (0 : Int)) (some 2) [-1, 1, 3] = .ok [0, 1, 2] := by decide
 example : ∃ e, clip (some (2 : Int)) (some 0) [1] = .error e := ⟨_, rfl⟩
 example : (0 : Rat) ≤ 1 ∧ zcross (1 : Rat) 0 [1/2, 2, -1/2, -3, 5] = [0, 0, 0, 1, 1] := by decide +kernel
